@@ -300,11 +300,11 @@ func init() {
 		var cur atomic.Int64
 		var curStart atomic.Int64
 		var mu sync.Mutex
-		// watchdog: a case that does not come back within 8 s under an op budget is a hang
+		// watchdog: a case that does not come back within 30 s under an op budget is a hang
 		go func() {
 			for {
 				time.Sleep(200 * time.Millisecond)
-				if st := curStart.Load(); st != 0 && time.Now().UnixMilli()-st > 8000 {
+				if st := curStart.Load(); st != 0 && time.Now().UnixMilli()-st > 30000 {
 					mu.Lock()
 					i := int(cur.Load())
 					o := &c01Obs{Ev: "c01", Kind: *kind, Src: srcs[i], Hang: true, DetailStable: true, Steps: []c01Step{}, Count: 1}
